@@ -43,6 +43,9 @@
 /* #include "alignment.h" */
 #include "pick_anchor.h"
 #include "esl_stopwatch.h"
+#ifdef KALIGN_VERIF
+#include "kalign_verif.h"
+#endif
 
 struct node{
         struct node* left;
@@ -219,6 +222,9 @@ int bisecting_kmeans(struct msa* msa, struct node** ret_n, const float * const *
         for(i = 0; i < 4;i++){
                 res[i] = NULL;
         }
+#ifdef KALIGN_VERIF
+        kv_km(KV_KM_ENTER, res, NULL, NULL);
+#endif
         tries = MACRO_MIN(tries, num_samples);
         int step = num_samples / tries;
         int change = 0;
@@ -245,6 +251,9 @@ int bisecting_kmeans(struct msa* msa, struct node** ret_n, const float * const *
 #pragma omp taskwait
 #endif
 
+#ifdef KALIGN_VERIF
+                kv_km(KV_KM_REDUCE, res, NULL, NULL);
+#endif
                 for(j = 0; j < 4;j++){
                         if(!best){
                                 change++;
@@ -303,6 +312,9 @@ int bisecting_kmeans(struct msa* msa, struct node** ret_n, const float * const *
 #pragma omp taskwait
 #endif
 
+#ifdef KALIGN_VERIF
+        kv_km(KV_KM_NODE_DONE, n, n->left, n->right);
+#endif
         *ret_n =n;
         return OK;
 ERROR:
@@ -669,6 +681,9 @@ ERROR:
 
 int split2(const float * const * dm,const int* samples, const int num_anchors,const int num_samples,const int seed_pick,struct kmeans_result** ret)
 {
+#ifdef KALIGN_VERIF
+        kv_km(KV_KM_SPLIT_BEGIN, ret, NULL, NULL);
+#endif
         struct kmeans_result* res = NULL;
         int* sl = NULL;
         int* sr = NULL;
@@ -869,6 +884,9 @@ int split2(const float * const * dm,const int* samples, const int num_anchors,co
         res->nr =  num_r;
         res->score = score;
         *ret = res;
+#ifdef KALIGN_VERIF
+        kv_km(KV_KM_SPLIT_END, ret, NULL, NULL);
+#endif
         return OK;
 ERROR:
         return FAIL;
